@@ -186,7 +186,8 @@ _add('transfer', APPLICABLE,
      forbid=TYPE_DEP, expect=[('attr', 'transfer-ownership', '$0')])
 _add('transfer', APPLICABLE,
      'D "Default Annotations" ((inout) and (out) parameters carry a transfer mode); DESIGN appendix A',
-     opts=['none', 'full'], pos='param', dirs=['out', 'inout'], expect=[('attr', 'transfer-ownership', '$0')])
+     opts=['none', 'full'], pos='param', dirs=['out', 'inout'], cats=frozenset(CATS) - CALLBACKS - frozenset(['foreign', 'void']),
+     forbid=TYPE_DEP, expect=[('attr', 'transfer-ownership', '$0')])
 _add('transfer', APPLICABLE,
      'W invalid-transfer.h (message: valid for array ... types) with D "(array)"',
      opts=['none', 'full'], dirs=['in', 'return'], cats=ARRAYABLE, need=['array'], forbid=TYPE_DEP,
